@@ -203,6 +203,28 @@ class Body:
                         b += 1
                     found = (b, match_close(toks, b), names)
                     break
+            if found is None and closure.startswith("#"):
+                # anonymous closure number k of the function (source order), block body required
+                cl = self.closures()
+                k = int(closure[1:])
+                if k >= len(cl):
+                    raise LostAnchor(f"closure {closure} not found in {qual} ({len(cl)} closures)")
+                st, pe, bs, be = cl[k]
+                if toks[bs].text != "{":
+                    raise LostAnchor(f"closure {closure} of {qual} has no block body")
+                ps = st + 1 if toks[st].text == "move" else st
+                names = []
+                if toks[ps].text == "|":
+                    seg = []
+                    for t in toks[ps + 1:pe]:
+                        if t.text == ",":
+                            names.append(seg[0].text if seg else "_")
+                            seg = []
+                        else:
+                            seg.append(t)
+                    if seg:
+                        names.append(seg[0].text)
+                found = (bs, be, names)
             if found is None:
                 raise LostAnchor(f"local closure {closure} not found in {qual}")
             self.open, self.close, self.params = found
